@@ -862,6 +862,31 @@ func (g *gen) sCo(fc *fctx) []Stmt {
 		return g.yieldStmt(fc)
 	}
 	g.use("coroutine")
+	if g.ch(10) == 0 {
+		// a coroutine whose body is a builtin or a host function
+		g.use("coroutine_over_go_function")
+		co, ok, a, b, st := g.fresh("co"), g.fresh("ok"), g.fresh("ga"), g.fresh("gb"), g.fresh("st")
+		var fn string
+		var args []Expr
+		switch g.ch(4) {
+		case 0:
+			fn, args = "emit", []Expr{Str{"gofn"}, g.numExpr(0)}
+		case 1:
+			fn, args = "select", []Expr{Str{"#"}, g.numExpr(0), g.numExpr(0)}
+		case 2:
+			fn, args = "type", []Expr{g.numExpr(0)}
+		default:
+			fn, args = "rawequal", []Expr{g.numExpr(0), g.numExpr(0)}
+		}
+		if g.feat("wrap") && g.ch(2) == 0 {
+			return []Stmt{&Call{Names: []string{co}, Fn: Var{"cowrap"}, Args: []Expr{Var{fn}}},
+				&Call{Names: []string{ok, a, b}, Fn: Var{"pcall"}, Args: append([]Expr{Var{co}}, args...)}, g.emitVars("gw", ok, a, b),
+				&Call{Names: []string{ok + "b", a + "b"}, Fn: Var{"pcall"}, Args: []Expr{Var{co}}}, g.emitVars("gw2", ok+"b")}
+		}
+		return []Stmt{&Call{Names: []string{co}, Fn: Var{"cocreate"}, Args: []Expr{Var{fn}}},
+			&Call{Names: []string{ok, a, b}, Fn: Var{"coresume"}, Args: append([]Expr{Var{co}}, args...)},
+			&Call{Names: []string{st}, Fn: Var{"costatus"}, Args: []Expr{Var{co}}}, g.emitVars("gc", ok, a, b, st)}
+	}
 	// resume an existing coroutine or create a new one
 	own := g.visible(func(v *varInfo) bool { return v.k == kCo && v.coOwner == fc.id })
 	if len(own) > 0 && g.ch(3) != 0 {
